@@ -272,6 +272,9 @@ func (w *World) monitorExchangeOrder(prop string) {
 		}
 		// find the identifier from the store log
 		id := w.idOf(&x.op)
+		if id == 0 && w.scn.Volatile {
+			id = w.wireID(&x.op)
+		}
 		if id == 0 {
 			w.Violate(prop, "exchange-closed-without-record", "%s op %d closed but no record was ever saved", x.actor, x.idx)
 			continue
@@ -298,6 +301,20 @@ func (w *World) monitorExchangeOrder(prop string) {
 			}
 		}
 	}
+}
+
+// wireID returns the identifier op's PUBLISH carried on the wire (sessions
+// without an observable store).
+func (w *World) wireID(op *Op) uint16 {
+	for _, c := range w.conns {
+		pkts, _, _ := wirePackets(c)
+		for _, p := range pkts {
+			if p.Type == tPUBLISH && p.Topic == op.Topic && string(p.Body) == string(op.Msg) {
+				return p.ID
+			}
+		}
+	}
+	return 0
 }
 
 // idOf returns the packet identifier under which op's packet was saved.
